@@ -134,6 +134,12 @@ class StaleJunkError(Exception):
         )
 
 
+class _Run:
+    """One call of `Spinner.run`: is it over?"""
+
+    over = False
+
+
 class Spinner:
     """Spin the reactor until a function is done.
 
@@ -315,16 +321,37 @@ class Spinner:
             # Twisted's signal handlers.
             real_stop, self._reactor.stop = self._reactor.stop, self._fake_stop
 
+            # The callbacks hung on the function's Deferred belong to *this*
+            # run.  The Deferred may outlive it (it fires after the timeout
+            # or after an interrupt): by then the spinner may be running
+            # something else, or another spinner may be spinning the reactor,
+            # so once this run is over they must not record a result, cancel
+            # a timeout or crash the reactor any more.
+            this_run = _Run()
+
+            def during_this_run(callback):
+                def guarded(result):
+                    if not this_run.over:
+                        return callback(result)
+
+                return guarded
+
             def run_function():
                 d = defer.maybeDeferred(function, *args, **kwargs)
-                d.addCallbacks(self._got_success, self._got_failure)
-                d.addBoth(self._stop_reactor)
+                d.addCallbacks(
+                    during_this_run(self._got_success),
+                    during_this_run(self._got_failure),
+                )
+                d.addBoth(during_this_run(self._stop_reactor))
 
             try:
                 self._reactor.callWhenRunning(run_function)
                 self._spinning = True
                 self._reactor.run()
             finally:
+                this_run.over = True
+                # An interrupted run ends without _stop_reactor.
+                self._spinning = False
                 self._reactor.stop = real_stop
                 self._restore_signals()
             try:
